@@ -308,6 +308,55 @@ def run(ctx):
     from .c01 import check_copydimension
     check_copydimension(ctx, rule='R-DIMLEN')
     ctx.rule('R-DIMLEN', 'copyDimension applies the requested length and flag on every branch')
+    # 4d. a new dimension length that is computed (not measured on the selected values) is right for every slice (finite case analysis)
+    from .. import consteval
+    ctx.rule('R-SLICELEN', 'new dimension lengths are the size of the selection; a length computed from slice.indices() is checked on forward, reversed, strided, negative-bound and empty slices')
+    ndl = [st for st in iter_stmts(fn.body) if isinstance(st, ast.Assign) and norm(st.targets[0]) == 'newdl']
+    if not ndl:
+        raise AnalysisError('anchor vanished: newdl in sliceDimensions')
+    for st in ndl:
+        v = st.value
+        tv = norm(v)
+        measured = (isinstance(v, ast.Attribute) and v.attr == 'size' and isinstance(v.value, ast.Subscript)) or \
+            (isinstance(v, ast.Call) and dotted(v.func) == 'len' and v.args and (isinstance(v.args[0], ast.Subscript) or norm(v.args[0]) == 'dv'))
+        if measured:
+            ctx.ok('R-SLICELEN', tv[:50], where, 'length measured on the selected values / the unselected dimension')
+            continue
+        block = getattr(st, '_parent', None)
+        body = block.body if isinstance(block, ast.If) and st in block.body else (block.orelse if isinstance(block, ast.If) else [st])
+        wrong = unk = None
+        samples = [(6, s_) for s_ in ((None, None, None), (1, 4, None), (None, None, 2), (1, 6, 3), (None, None, -1), (4, 1, -1), (2, 1, -1), (5, None, -2), (0, 0, None),
+                                       (-2, None, None), (None, -1, None), (3, 100, None), (5, 0, -3))] + [(1, (None, None, -1)), (1, (0, 1, None))]
+        for n_, s_ in samples:
+            sl = slice(*s_)
+
+            def hook(nd, n_=n_, sl=sl):
+                if isinstance(nd, ast.Call) and isinstance(nd.func, ast.Attribute) and nd.func.attr == 'indices':
+                    return sl.indices(n_)
+                if isinstance(nd, ast.Call) and dotted(nd.func) == 'len' and nd.args and norm(nd.args[0]) in ('dv', 'self.dimensions[dk]'):
+                    return n_
+                if isinstance(nd, ast.Attribute) and nd.attr in ('start', 'stop', 'step') and norm(nd.value) in ('ds', 'dimslices[dk]'):
+                    return {'start': sl.start, 'stop': sl.stop, 'step': sl.step}[nd.attr] if getattr(sl, nd.attr) is not None else ('$none',)
+                if isinstance(nd, ast.Call) and dotted(nd.func) == 'range' and not nd.keywords:
+                    a_ = [consteval.ev(x, {}, hook) for x in nd.args]
+                    return consteval.UNK if any(x is consteval.UNK for x in a_) else tuple(range(*a_))
+                return None
+            env = consteval.run_block(body, {}, hook, want_env=True)
+            got = env.get('newdl', consteval.UNK) if env is not consteval.UNK else consteval.UNK
+            if got is consteval.UNK:
+                unk = (n_, s_)
+                continue
+            want = len(range(n_)[sl])
+            if got != want:
+                wrong = (n_, s_, got, want)
+                break
+        if wrong:
+            ctx.violation(Finding('R-SLICELEN', RP, Q, st, 'for slice%s on a dimension of length %d the new length is computed as %s but %d elements are selected: the result dimension and the '
+                                  'selected data disagree (error, or a silently broadcast value)' % (wrong[1], wrong[0], wrong[2], wrong[3])))
+        elif unk:
+            ctx.undec('R-SLICELEN', tv[:50], where, 'length expression outside the evaluated fragment for slice%s' % (unk[1],))
+        else:
+            ctx.ok('R-SLICELEN', tv[:50], where, 'computed length equals the number of selected elements on %d sample slices' % len(samples))
     # 5. functional form: pure slice
     fm = ctx.src.mod('core/_functions.py')
     sd = fm.func('slice_dim')
